@@ -210,6 +210,9 @@ def _tags(p):
     return ["complex" if np.iscomplexobj(p["x"]) else "real", "data:" + p.get("dkind", "exp"), "fn:" + p.get("fn", "-")]
 
 
+# kinds whose parameters describe the content of x: no derived degenerate records
+NO_DEGEN = {"overfit", "recover"}
+
 KINDS = {
     "fit": {"impl": impl_fit, "model": model_fit, "rtol": 1e-6, "atol": 1e-9, "key": _key, "tags": _tags,
             "nontrivial": lambda p: p["order"] >= 2},
